@@ -1497,10 +1497,18 @@ class Symx:
         except Undecided:
             self.havoc_loop(s, st)
             return [st], []
+        inrange = sp.And(sp.Ge(i, lo), sp.Lt(i, hi))
+        loop_exits = []
+        if done and live and all(o.kind == 'exit' for o in done):
+            # an iteration may stop the program (a guard inside the loop): the summary below describes the state after the
+            # loop, which is only reached when no iteration exited; each exit is reported as an outcome of its own
+            for o in done:
+                o.state.conds.append(inrange)
+                loop_exits.append(o)
+            done = []
         if done or not live:
             self.havoc_loop(s, st)
             return [st], []
-        inrange = sp.And(sp.Ge(i, lo), sp.Lt(i, hi))
         # merge: arrays
         for key, node in arrays.items():
             base = st.env.get(key)
@@ -1519,7 +1527,7 @@ class Symx:
                     break
                 ef = a.entry_func()
                 pc = sp.And(*p.conds[ncond:]) if len(p.conds) > ncond else S.true
-                for kvs, guard, term in a.defs[ndefs[key]:]:
+                for pos_a, (kvs, guard, term) in enumerate(a.defs[ndefs[key]:], start=ndefs[key]):
                     g, t = guard, term
                     if len0 is not None and a.length is not None and a.length != len0:
                         growth = a.length - len0
@@ -1559,7 +1567,11 @@ class Symx:
                                 break
                         t2 = t2.replace(ef, lambda *ix: base.read(tuple(ix)))
                     newarr.defs.append((kvs, sp.And(kv_guard, pc2), t2))
-                    newarr.ranges[len(newarr.defs) - 1] = inrange.subs(isub)
+                    rng_ = inrange.subs(isub)
+                    if pos_a in a.ranges:
+                        # the definition is itself a comprehension of an inner loop: keep its index range as well
+                        rng_ = sp.And(rng_, a.ranges[pos_a].subs(isub))
+                    newarr.ranges[len(newarr.defs) - 1] = rng_
             if grew is not False and len0 is not None:
                 newarr.length = len0 + (hi - lo) * grew
             newarr.entry_from = base.entry_from
@@ -1600,7 +1612,7 @@ class Symx:
         if s['init']['k'] != 'Decl':
             # the counter outlives the loop: its exit value is max(lo, hi)
             st.env[var['id']] = sp.Max(lo, hi) if strip(s['cond'])['op'] != '!=' else hi
-        return [st], []
+        return [st], loop_exits
 
     def prefix_recurrence(self, t2, ef, kvs, foreign, base, lo, isub, i):
         """A[k] = A[k-1] + c(k) written for k = i+s, i = lo.. : the element read was written by the previous iteration.
